@@ -1,2 +1,8 @@
+-- Root of the library: everything a fresh `lake build` must check.
 import Lcapy.Model.M2
+import Lcapy.Model.CRat
 import Lcapy.Generated.TwoPort
+import Lcapy.Spec.TwoPort
+import Lcapy.Spec.TwoPortExec
+import Lcapy.Proofs.TwoPortBase
+import Lcapy.Props.C08
